@@ -236,10 +236,18 @@ PoolShapes == {"wide4", "widejoin", "widephony", "fanout", "fanin", "diamond", "
 PoolGraphs(profs, K) ==
   UNION { UNION { {WithPools(gr, pa) : pa \in RandomSubset(2, [1..Len(gr.stmts) -> PoolNames])} : gr \in GraphsS(sh, profs, K) } : sh \in PoolShapes }
 
+\* pool statements with order-only inputs produced by other statements (clean statements that wait in the plan)
+PoolGraphsOO(K) ==
+  UNION { {WithPools(gr, pa) : pa \in RandomSubset(K, [1..Len(gr.stmts) -> {"p1", "p1", "console", ""}])} :
+          gr \in { Graph(<<Mk(1, C(<<"s1">>), k1), Mk(2, C(<<"s2">>), "plain"), Mk(3, C(<<"s2">>), "plain"), Mk(4, Sk(<<"s1">>, <<>>, <<"o1">>, <<>>, FALSE), "plain"),
+                           Mk(5, Sk(<<"s2">>, <<>>, <<"o1">>, <<>>, FALSE), k5)>>) : k1 \in {"plain", "restat"}, k5 \in {"plain", "restat"} } }
 FamPools(K, CH) ==
   UNION { {Scn(gr, <<BX(Roots(gr), jk[1], jk[2], [fail |-> f])>>) :
-              jk \in {1, 2, 3} \X {1, 0}, f \in {<<>>} \cup Pick(1, {FailRec(S, 1, FALSE) : S \in FailSets(gr)})} :
-          gr \in PoolGraphs({"plain", "restat", "two"}, K) }
+              jk \in {1, 2, 3} \X {1, 0}, f \in {<<>>} \cup Pick(1, {FailRec(S, 1, FALSE) : S \in FailSets(gr)})}
+          \* incremental builds: part of the plan is clean or gets pruned by restat while pool statements wait
+          \cup {Scn(gr, <<Build(Roots(gr), 2, 1), c1, c2, BX(Roots(gr), j, 1, [fail |-> <<>>]), Build(Roots(gr), 2, 1)>>) :
+                  j \in {2, 3, 4}, c1 \in Pick(2, {x \in Changes(gr) : x.op \in {"touch", "edit"}}), c2 \in Pick(2, {x \in Changes(gr) : x.op \in {"touch", "del"}})} :
+          gr \in PoolGraphs({"plain", "restat", "two"}, K) \cup PoolGraphsOO(K) }
 
 \* jobserver: tok tokens in the FIFO (plus the implicit one); start failures (rspfile in a directory that cannot be made)
 FamJobs(K, CH) ==
